@@ -54,6 +54,7 @@ structure St where
   digests : Std.HashMap String String := {}      -- reference content digest per merge output name
   vcaches : Std.HashMap String VCache := {}
   handles : Std.HashMap String (String × Name × Option (List Nat) × Bool × Bool) := {}   -- seg, field, except, filtering, has index
+  sameObs : Std.HashMap String String := {}         -- first observation per `same=<tag>`
   badDictFile : Std.HashMap String (List Name) := {}   -- files whose term dictionary of these fields no longer loads (`corruptdict`)
   badDictSeg : Std.HashMap String (List Name) := {}    -- the segments opened from them
 
@@ -338,6 +339,19 @@ def vecObs (st : St) (c : Cmd) : St × Verdict :=
       ({ st with handles := st.handles.erase (c.arg 0),
                  vcaches := if has then st.vcaches.insert seg (iterN (fun x => x.closeHandle f) st.parMul cache) else st.vcaches }, .exact "ok")
   | "vsearch" =>
+    -- `engfail=<op>:<n>`: the engine fails inside this search: the caller gets the error (and the
+    -- handle, the cache entry and every other handle stay as they were); if the armed call was not
+    -- reached (` fired=0` is appended to the observation), the ordinary answer is due
+    let withFault : St × Verdict → St × Verdict := fun r =>
+      if (c.get? "engfail").isNone then r else
+      let strip : String → String := fun g => ((g.replace " fired=0" "").replace " fired=1" "")
+      match r with
+      | (st, .exact w) => (st, .pred (fun g => if kvOf g "fired" == some "1" then g.startsWith "err:engine" else strip g == w)
+                                 ("err:engine when the armed engine call was reached, otherwise " ++ w))
+      | (st, .pred ok d) => (st, .pred (fun g => if kvOf g "fired" == some "1" then g.startsWith "err:engine" else ok (strip g))
+                                 ("err:engine when the armed engine call was reached, otherwise " ++ d))
+      | r => r
+    withFault <|
     match st.handles.get? (c.arg 0) with
     | none => (st, .exact "scripterror:nohandle")
     | some (seg, f, ex, _, _) =>
@@ -358,10 +372,11 @@ def vecObs (st : St) (c : Cmd) : St × Verdict :=
             | none => none
           let M := admissible ix q ex elig
           let exact := isExact ix
-          (st, .pred (fun g =>
+          let okHits : String → Bool := fun g =>
               let R := parseVHits ((kvOf g "hits").getD "-")
               kvOf g "cnt" == some (toString R.length) &&
-              (if exact then validTopK ix.metric k M R else clusteredHits ix.metric k M R))
+              (if exact then validTopK ix.metric k M R else clusteredHits ix.metric k M R)
+          (st, .pred okHits
             (if exact then s!"a best-{k} selection of {M.length} admissible vectors with true scores"
              else s!"at most {k} admissible vectors with true scores"))
   | "vtick" =>
